@@ -25,6 +25,9 @@ type c10Replay struct {
 	Note     string `json:"note"`
 	// Genuine: a token that was validated earlier in the same process (the one Token was derived from)
 	Genuine string `json:"validated_before,omitempty"`
+	// Sibling: 1 / 2 = the same import list also holds, before / after the import under test, a second import that
+	// carries the very same token string and is correctly bound by it (added only when the token allows one)
+	Sibling int `json:"sibling_with_same_token,omitempty"`
 }
 
 // indepActivation: the harness's own reading of an activation token (no library decoder involved):
@@ -121,7 +124,26 @@ func evalC10(c *Ctx, rp c10Replay) {
 		ac.Limits.Conn = 5
 		ac.Mappings["m"] = []jwt.WeightedMapping{{Subject: "n", Weight: 50}}
 	}
+	var sib *jwt.Import
+	if rp.Sibling != 0 {
+		if a := indepActivation(rp.Token); a.ok && a.sub == rp.Importer && a.expType == "stream" && !badSubject(a.grant) &&
+			(a.issuerAccount == "" || roleIs(a.issuerAccount, 'A')) {
+			from := a.iss
+			if a.issuerAccount != "" {
+				from = a.issuerAccount
+			}
+			inst := strings.NewReplacer("*", "s1", ">", "s2").Replace(a.grant)
+			sib = &jwt.Import{Name: "sib", Subject: jwt.Subject(inst), Account: from, Type: jwt.Stream, Token: rp.Token}
+			c.Count("sibling-import-with-same-token")
+		}
+	}
+	if sib != nil && rp.Sibling == 1 {
+		ac.Imports.Add(sib)
+	}
 	ac.Imports.Add(imp)
+	if sib != nil && rp.Sibling == 2 {
+		ac.Imports.Add(sib)
+	}
 	r := validateOp(c, ac, true)
 	if r.panicked != "" {
 		c.Violate("panic", "Validate panicked: "+r.panicked, rp)
@@ -174,7 +196,7 @@ func semContained(p, q string) bool {
 }
 
 func runC10(c *Ctx) {
-	c.Res.Rule = "every combination of satisfying/violating each of the five binding conditions (issuer = exporter directly or via issuer_account, addressed to the importer, same kind, granted subject contains the imported subject, token authentic) x signer {exporter identity, exporter signing key + issuer_account, operator + issuer_account} x layout {v2, v1} x random accounts / subjects / kinds / expiry, standalone and embedded in a rich account; plus tampered tokens, non-activation tokens and garbage. Oracle: the import is non-blocking exactly when the harness's own reading of the token (own header/payload parser, own nkey decoder, crypto/ed25519) satisfies all conditions; semantic containment is decided independently. non-trivial = distinct (import, token) pairs."
+	c.Res.Rule = "every combination of satisfying/violating each of the five binding conditions (issuer = exporter directly or via issuer_account, addressed to the importer, same kind, granted subject contains the imported subject, token authentic) x signer {exporter identity, exporter signing key + issuer_account, operator + issuer_account} x layout {v2, v1} x random accounts / subjects / kinds / expiry, standalone and embedded in a rich account, alone and next to a second import of the same list that carries the same token string and is correctly bound by it; plus tampered tokens, non-activation tokens and garbage. Oracle: the import is non-blocking exactly when the harness's own reading of the token (own header/payload parser, own nkey decoder, crypto/ed25519) satisfies all conditions; semantic containment is decided independently. non-trivial = distinct (import, token) pairs."
 	rng = rngT{c.R}
 	subjects := []struct{ imported, grantOK, grantBad string }{
 		{"foo.bar", "foo.>", "foo.baz"}, {"foo.bar", "foo.bar", "foo"}, {"a.*", "a.*", "a.b"}, {"a.*.c", "a.>", "b.>"},
@@ -272,9 +294,14 @@ func runC10(c *Ctx) {
 							tok, note = "garbage."+tok[:20], "garbage"
 						}
 					}
-					rp := c10Replay{importer, exporter, typ, imported, to, tok, c.R.Bool(), fmt.Sprintf("%s:mask=%d:signer=%d:%s", note, mask, signer, layout), genuine}
+					rp := c10Replay{importer, exporter, typ, imported, to, tok, c.R.Bool(), fmt.Sprintf("%s:mask=%d:signer=%d:%s", note, mask, signer, layout), genuine, 0}
 					rp.Note = note + ":" + layout
 					evalC10(c, rp)
+					if actType == 1 {
+						rp2 := rp
+						rp2.Sibling = 1 + c.R.Intn(2)
+						evalC10(c, rp2)
+					}
 					if round == 0 && mask == 0 && signer == 0 && layout == "v2" {
 						c.Sample(rp)
 					}
